@@ -240,6 +240,20 @@ theorem c20_convert_particle_dimensions (p : PData K) (L T M L' T' M' : K)
     | exact (c20_convert_is_monomial _ 0 L T M L' T' M' hL hT hM hL' hT' hM').2.2.1
     | exact (c20_convert_is_monomial _ 0 L T M L' T' M' hL hT hM hL' hT' hM').2.2.2.1
 
+/-- unit conversion is linear in the particle data, field by field: a variational particle (the
+    derivative of a particle) is converted correctly by the very same `units_convert_particle` —
+    `convert (p + t·d) = convert p + t·convert d`.  (`convert_particle_units` loops over all N particles.) -/
+theorem c20_convert_linear (p d : PData K) (t L T M L' T' M' : K) :
+    let lin : PData K → PData K → PData K := fun a b =>
+      ⟨a.m + t * b.m, a.x + t * b.x, a.y + t * b.y, a.z + t * b.z, a.r + t * b.r, a.vx + t * b.vx,
+       a.vy + t * b.vy, a.vz + t * b.vz, a.ax + t * b.ax, a.ay + t * b.ay, a.az + t * b.az⟩
+    genConvertParticle (lin p d) L T M L' T' M' =
+      lin (genConvertParticle p L T M L' T' M') (genConvertParticle d L T M L' T' M') := by
+  intro lin
+  simp only [lin, genConvertParticle, genConvertMass, genConvertLength, genConvertVel, genConvertAcc, p_powi,
+    sc_hmul, sc_hdiv]
+  congr 1 <;> ring
+
 /-! ### state machine of `Simulation.units`, `update_units`, `convert_particle_units`, `sim.G = …` -/
 
 /-- setting units on an empty simulation always succeeds, stores the names, makes `G = convert_G`;
@@ -368,6 +382,20 @@ theorem c20_mul_inverse (q : Quat K) (h : qlen2 q ≠ 0) :
 theorem c20_rotate_inverse (q : Quat K) (v : V3 K) (h : qlen2 q = 1) :
     rotate v (qid : Quat K) = v ∧ rotate (rotate v q) (inverse q) = v :=
   ⟨rotate_id v, rotate_inverse q v h⟩
+
+/-- variational particles under `reb_simulation_irotate`: the rotation is linear, so the derivative of
+    the rotated coordinates along a variation `d` is the rotated variation — `rotate (x + t d) = rotate x +
+    t · rotate d` for every `t` (ε-part: `rotate d`), at first and (same linear map) second order.  The
+    model rotates the whole particle array: real and variational particles alike, and nothing else. -/
+theorem c20_rotate_variations (q : Quat K) (x d : V3 K) (t : K) (real var : List (V3 K × V3 K)) :
+    rotate (vadd x (vmul d t)) q = vadd (rotate x q) (vmul (rotate d q) t) ∧
+    rotateSim (real ++ var) q = rotateSim real q ++ rotateSim var q ∧
+    (rotateSim (real ++ var) q).length = real.length + var.length ∧
+    (∀ p ∈ var, (rotate p.1 q, rotate p.2 q) ∈ rotateSim (real ++ var) q) := by
+  refine ⟨by rw [rotate_add, rotate_smul], by simp [rotateSim], by simp [rotateSim], ?_⟩
+  intro p hp
+  simp only [rotateSim, List.map_append, List.mem_append, List.mem_map, rotatePV]
+  exact Or.inr ⟨p, hp, rfl⟩
 
 /-- specific angular momentum `h = x × v` of a relative orbit -/
 def hvec (x v : V3 K) : V3 K := cross x v
